@@ -296,8 +296,11 @@ def main():
         gn,
         "",
     ]
-    with open(a.o, "w") as f:
-        f.write("\n".join(out))
+    text = "\n".join(out)
+    # keep the time stamp when nothing changed, so that `make` does not re-check files that depend on it
+    if not (os.path.exists(a.o) and open(a.o).read() == text):
+        with open(a.o, "w") as f:
+            f.write(text)
 
 
 if __name__ == "__main__":
